@@ -125,7 +125,9 @@ def gen_cases(ctx, rng):
                 return None, [r[1:]]
             M = r[1].full()
             ent, bad = rad_entries(M, sqrt_entries=(kind != "num"))
-            if r[1].dims != [[N], [N]]:
+            # N <= 0 is not rejected by destroy/create: same 1x1 operator as N = 1
+            Nd = N if kind == "num" else max(N, 1)
+            if r[1].dims != [[Nd], [Nd]]:
                 bad.append("dims %r" % (r[1].dims,))
             return (M.shape[0], ent), bad
         return th
